@@ -25,7 +25,7 @@ import (
 // constructor's and every exported method's exit state.
 
 var c03reviewedK19 = map[string]c03argued{
-	"idr.XMLStreamReader dereferences its cursor field cur after it was moved to Parent": {40, "the cursor is moved to its parent only when encoding/xml reports an EndElement, which the decoder does only for an element that is open (unbalanced end tags are syntax errors); elements are created below the document node, so the node being closed always has a non-nil parent, and the document node itself is never closed"},
+	"idr.XMLStreamReader.cur is dereferenced after it was moved to Parent": {40, "the cursor is moved to its parent only when encoding/xml reports an EndElement, which the decoder does only for an element that is open (unbalanced end tags are syntax errors); elements are created below the document node, so the node being closed always has a non-nil parent, and the document node itself is never closed"},
 }
 
 type k19state int
@@ -329,7 +329,7 @@ func (x *c03ctx) runK19() {
 					}
 				}
 			}
-			key := "idr." + name + " dereferences its cursor field " + F.Name() + " after it was moved to Parent"
+			key := "idr." + name + "." + F.Name() + " is dereferenced after it was moved to Parent"
 			if nBad == 0 {
 				c.OK("K19", key, F.Pos(), fmt.Sprintf("%d dereference site(s) of the field, each reached with the field known non-nil (nil test or store of a fresh node on every path)", nOK))
 				continue
